@@ -28,6 +28,7 @@ parseattr(struct attr *a, enum attrkind allowed, enum attrprefix prefix)
 	char *name, *prefixname = "";
 	enum attrkind kind;
 	int paren;
+	enum tokenkind close[32];
 
 	if (tok.kind != TIDENT)
 		return false;
@@ -79,10 +80,22 @@ parseattr(struct attr *a, enum attrkind allowed, enum attrprefix prefix)
 			a->kind |= kind;
 	} else if (consume(TLPAREN)) {
 		/* skip arguments */
+		close[0] = TRPAREN;
 		for (paren = 1; paren > 0; next()) {
 			switch (tok.kind) {
-			case TLPAREN: ++paren; break;
-			case TRPAREN: --paren; break;
+			case TLPAREN:
+			case TLBRACK:
+			case TLBRACE:
+				if (paren == LEN(close))
+					error(&tok.loc, "attribute arguments nested too deeply");
+				close[paren++] = tok.kind == TLPAREN ? TRPAREN : tok.kind == TLBRACK ? TRBRACK : TRBRACE;
+				break;
+			case TRPAREN:
+			case TRBRACK:
+			case TRBRACE:
+				if (tok.kind != close[--paren])
+					error(&tok.loc, "unbalanced attribute arguments");
+				break;
 			case TEOF: error(&tok.loc, "unterminated attribute arguments");
 			}
 		}
